@@ -730,7 +730,7 @@ def run(chk):
     chk.assumptions = ["relative paths of the streams are pairwise distinct (they are distinct directories)",
                        "|clock + offset| < 2^63 (no signed overflow in stream_evclock)",
                        "PRV thread-state records (type 4) are written in the order the events are processed; the e2e traces make every event change the thread state"]
-    proved = chk.translate_and_prove(["cmp_player"])
+    proved = chk.translate_and_prove(["cmp_player", "loader", "loader_step", "stepper"])
 
     build = common.repo_build("hook")
     hdir = os.path.join(common.BUILD, "harness")
